@@ -52,7 +52,7 @@ def plan(tier, seed):
     cases = []
     for t0, t1 in itertools.product(shell_types(L), repeat=2):
         cases.append({"kind": "pair", "t0": list(t0), "t1": list(t1)})
-    for i in range(40 if tier == "quick" else 600):
+    for i in range(40 if tier == "quick" else 1500):
         cases.append({"kind": "random", "seed": seed, "i": i})
     cases.append({"kind": "reject"})
     for l in range(8):
